@@ -202,11 +202,11 @@ Section WithSort.
     - exact H.
   Qed.
 
-  Lemma mon_step_model : forall cfg np s o, inv s -> (length (peers s) <= np)%nat -> 0 <= c_low cfg ->
+  Lemma mon_step_model : forall cfg np s o, inv s -> (length (peers s) <= np)%nat ->
     let '(s', cl) := step sort cfg s o in
     mon_step cfg np (abs s) o (mobs np s' cl) = inl (abs s').
   Proof.
-    intros cfg np s o Hinv Hlen Hlow. destruct (step sort cfg s o) as [s' cl] eqn:Es.
+    intros cfg np s o Hinv Hlen. destruct (step sort cfg s o) as [s' cl] eqn:Es.
     pose proof (inv_step cfg s o Hinv) as Hinv'. rewrite Es in Hinv'. cbn [fst] in Hinv'.
     assert (Hfin : forall s2, s2 = abs s' ->
               (if negb (o_count (mobs np s' cl) =? acount s2) then inr 3
@@ -217,7 +217,7 @@ Section WithSort.
     unfold mon_step. destruct (is_trim o) eqn:Eo.
     - destruct o; try discriminate Eo; cbn [step] in Es.
       + (* Trim *)
-        pose proof (model_trim_ok_l sort sort_perm sort_sorted cfg s Hinv Hlow) as Hok. rewrite Es in Hok. cbn [snd] in Hok.
+        pose proof (model_trim_ok_l sort sort_perm sort_sorted cfg s Hinv) as Hok. rewrite Es in Hok. cbn [snd] in Hok.
         cbn [o_closed mobs]. rewrite (trim_code_ok _ _ _ (trim_ok_sound_l _ _ _ Hok)). cbn [Z.eqb negb astep].
         apply Hfin. destruct (trim_pruned sort sort_perm cfg s Hinv) as [pr [E Hp]]. rewrite Es in E. cbn [fst] in E.
         rewrite E. apply forget_matches; assumption.
@@ -231,13 +231,13 @@ Section WithSort.
 End WithSort.
 
 (* ---- the headline: the monitor accepts every trace of the model --------------------------------------- *)
-Lemma mon_run_model : forall cfg np ops s i, inv s -> (length (peers s) <= np)%nat -> 0 <= c_low cfg ->
+Lemma mon_run_model : forall cfg np ops s i, inv s -> (length (peers s) <= np)%nat ->
   Forall (op_within np) ops ->
   mon_run cfg np (abs s) i (mtrace cfg np s ops) = [].
 Proof.
-  intros cfg np. induction ops as [|o r IH]; intros s i Hinv Hlen Hlow Hw; cbn [mtrace mon_run]; [reflexivity|].
+  intros cfg np. induction ops as [|o r IH]; intros s i Hinv Hlen Hw; cbn [mtrace mon_run]; [reflexivity|].
   inversion Hw as [|? ? Ho Hr]; subst.
-  pose proof (mon_step_model isort isort_perm isort_sorted cfg np s o Hinv Hlen Hlow) as Hm.
+  pose proof (mon_step_model isort isort_perm isort_sorted cfg np s o Hinv Hlen) as Hm.
   pose proof (inv_step isort isort_perm cfg s o Hinv) as Hi.
   pose proof (len_step isort isort_perm cfg np s o Hinv Hlen Ho) as Hl.
   destruct (step isort cfg s o) as [s' cl]. cbn [fst] in Hi, Hl. cbn [mon_run]. rewrite Hm.
@@ -247,11 +247,11 @@ Qed.
 Lemma inv_init : forall cfg, inv (init cfg).
 Proof. intros. split; [constructor|reflexivity]. Qed.
 
-Lemma monitor_model : forall cfg np ops, 0 <= c_low cfg -> Forall (op_within np) ops ->
+Lemma monitor_model : forall cfg np ops, Forall (op_within np) ops ->
   monitor cfg np (mtrace cfg np (init cfg) ops) = [].
 Proof.
-  intros cfg np ops Hlow Hw. unfold monitor. change (ainit cfg) with (abs (init cfg)).
-  apply mon_run_model; [apply inv_init|cbn; lia|exact Hlow|exact Hw].
+  intros cfg np ops Hw. unfold monitor. change (ainit cfg) with (abs (init cfg)).
+  apply mon_run_model; [apply inv_init|cbn; lia|exact Hw].
 Qed.
 
 (* readable form of the trim clauses *)
@@ -262,7 +262,7 @@ Lemma trim_prop_spec : forall cfg s cl, trim_prop cfg s cl = true ->
   /\ (forall p c q, In (p, c) cl -> In q (pids s) -> eligible cfg s q = true -> keptp s cl q = true ->
         total (ap_at s p) <= total (ap_at s q))
   /\ (acount s <= c_low cfg -> cl = [])
-  /\ (disabled cfg = false -> c_low cfg < acount s -> remaining_eligible cfg s cl <= c_low cfg).
+  /\ (disabled cfg = false -> c_low cfg < acount s -> remaining_eligible cfg s cl <= Z.max 0 (c_low cfg)).
 Proof.
   intros cfg s cl H. unfold trim_prop in H.
   apply andb_true_iff in H. destruct H as [H H4]. apply andb_true_iff in H. destruct H as [H H3].
@@ -309,4 +309,19 @@ Proof.
     rewrite forallb_forall in H3. specialize (H3 q Hq). cbn [fst] in H3. rewrite He, Hk in H3.
     rewrite Bool.eqb_reflx in H3. cbn [andb] in H3. apply negb_true_iff, Z.ltb_ge in H3. exact H3.
   - intros Hc. apply Z.leb_le in Hc. rewrite Hc in H4. destruct cl; [reflexivity|discriminate].
+Qed.
+
+(* the observation window only has to contain the peers the history mentions *)
+Definition op_width (o : op) : nat :=
+  match o with
+  | Connected p _ | Disconnected p _ | TagPeer p _ _ | UntagPeer p _ | UpsertTag p _ _
+  | Bump p _ _ | DRemove p _ | Protect p _ | Unprotect p _ => S p
+  | _ => O
+  end.
+Definition width (ops : list op) : nat := fold_right (fun o n => Nat.max (op_width o) n) O ops.
+
+Lemma width_within : forall ops np, (width ops <= np)%nat -> Forall (op_within np) ops.
+Proof.
+  induction ops as [|o r IH]; intros np H; [constructor|]. cbn [width fold_right] in H. fold (width r) in H.
+  constructor; [|apply IH; lia]. destruct o; cbn [op_within op_width] in *; try exact I; lia.
 Qed.
